@@ -564,8 +564,15 @@ def splice_fn(text: str, sp: Splice, item: str, vacuity: bool = False) -> str:
         fr.insert(ct[bo].end, f"\nassert(false); // @vacuity.{item.replace('::', '.')}.body\n")
     if sp.body_end:
         fr.insert(ct[bc].start, "\n" + sp.body_end)
+    cl_all = R.closures(ct, bo + 1, bc)
+    bare = [n for n, c in enumerate(cl_all) if ct[c[1] + 1].text != "->" and n not in sp.closures]
+    if sp.contract.strip() and (bare or any(n >= len(cl_all) for n in sp.closures)):
+        # an un-annotated closure is opaque to Verus: whatever then fails to verify would be blamed on the
+        # code although it is only undecided.  Refuse instead (UNDECIDED), never alarm.
+        raise ExtractError(f"{item}: the function has {len(cl_all)} closure(s), {len(bare)} of them without a contract header "
+                           f"(headers are spliced for {sorted(sp.closures)}): closure structure changed, contract cannot be applied")
     if sp.closures:
-        cl = R.closures(ct, bo + 1, bc)
+        cl = cl_all
         for n, hdr in sp.closures.items():
             if n >= len(cl):
                 raise ExtractError(f"{item}: closure #{n} not found (function has {len(cl)})")
